@@ -7,7 +7,9 @@ import (
 	"fmt"
 	"os"
 	"runtime/debug"
+	"strings"
 	"testing"
+	"time"
 )
 
 type vpReplayResult struct {
@@ -26,23 +28,37 @@ func vpRunOne(path string) (res vpReplayResult) {
 	if h == nil {
 		return vpReplayResult{Outcome: "error", Msg: "unknown harness " + vpRV.Harness}
 	}
-	defer func() {
-		res.Reached = vpReached
-		r := recover()
-		switch e := r.(type) {
-		case nil:
-		case vpAssumeFailed:
-			res.Outcome = "assume"
-		case vpAssertFailed:
-			res.Outcome, res.Label = "assert", e.label
-		default:
-			res.Outcome, res.Msg, res.Stack = "panic", fmt.Sprint(r), string(debug.Stack())
-		}
+	done := make(chan vpReplayResult, 1)
+	go func() {
+		var r vpReplayResult
+		defer func() {
+			r.Reached = vpReached
+			rec := recover()
+			switch e := rec.(type) {
+			case nil:
+			case vpAssumeFailed:
+				r.Outcome = "assume"
+			case vpAssertFailed:
+				r.Outcome, r.Label = "assert", e.label
+			default:
+				r.Outcome, r.Msg, r.Stack = "panic", fmt.Sprint(rec), string(debug.Stack())
+			}
+			done <- r
+		}()
+		h()
+		r.Outcome = "pass"
 	}()
-	h()
-	res.Outcome = "pass"
-	return
+	select {
+	case r := <-done:
+		return r
+	case <-time.After(vpHangTimeout):
+		// the harness goroutine is stuck (e.g. blocked on a mutex): report and
+		// leave it behind
+		return vpReplayResult{Outcome: "hang", Msg: "harness did not return within " + vpHangTimeout.String()}
+	}
 }
+
+var vpHangTimeout = 30 * time.Second
 
 // TestVPReplay re-runs harnesses natively on replay vectors: VP_REPLAY is a
 // file with one replay-vector path per line; one JSON result line is printed
@@ -52,28 +68,23 @@ func TestVPReplay(t *testing.T) {
 	if list == "" {
 		t.Skip("VP_REPLAY not set")
 	}
-	for _, p := range vpSplitLines(list) {
+	var paths []string
+	if strings.HasPrefix(list, "@") {
+		b, err := os.ReadFile(list[1:])
+		if err != nil {
+			t.Fatal(err)
+		}
+		for _, l := range strings.Split(string(b), "\n") {
+			if strings.TrimSpace(l) != "" {
+				paths = append(paths, strings.TrimSpace(l))
+			}
+		}
+	} else {
+		paths = []string{list}
+	}
+	for _, p := range paths {
 		res := vpRunOne(p)
 		b, _ := json.Marshal(res)
 		fmt.Printf("VPRESULT %s %s\n", p, b)
 	}
-}
-
-func vpSplitLines(s string) []string {
-	var out []string
-	cur := ""
-	for _, c := range s {
-		if c == '\n' || c == ':' {
-			if cur != "" {
-				out = append(out, cur)
-			}
-			cur = ""
-			continue
-		}
-		cur += string(c)
-	}
-	if cur != "" {
-		out = append(out, cur)
-	}
-	return out
 }
